@@ -4,7 +4,7 @@
 EXTENDS CfgArea
 Menu(w) == IF IOEnv.MENU = "small" THEN {<<w - 1>>, [i \in 1..w |-> i - 1]} ELSE {<<>>, <<0>>, <<w - 1>>, [i \in 1..w |-> i - 1]}                       \* bit lists, as in the traces
 FieldTargets == UNION {{<<r, f>> : f \in {g \in Flds(L, r) : ~Fld(L, r, g).hidden}} : r \in {x \in Leaves(L) : ~Reg(L, x).hidden}}
-Role(r, f) == IF f > 0 THEN (IF Reg(L, r).comp # "" THEN "compfield" ELSE "field")
+Role(r, f) == IF f > 0 THEN (IF IsSizeFld(L, r, f) THEN "sizefld" ELSE IF IsCtrl(L, r, f) THEN "ctrl" ELSE IF Reg(L, r).comp # "" THEN "compfield" ELSE "field")
               ELSE IF Reg(L, r).kind = "group" THEN "group" ELSE "reg"
 \* whole-value writes: groups and registers without bit-fields (a computed register is configured through its bit-fields)
 WholeTargets == {r \in Regs(L) : /\ Reg(L, r).comp = "" /\ ~Reg(L, r).hidden /\ Reg(L, r).parent = 0
@@ -14,7 +14,16 @@ WriteMenu == UNION {{[cls |-> Role(t[1], t[2]), ws |-> <<[r |-> t[1], f |-> t[2]
 \* groups with alternative widths: values of the narrower width
 AltMenu == UNION {UNION {{[cls |-> "group", ws |-> <<[r |-> g, f |-> 0, v |-> V, aw |-> Reg(L, g).altw[k]]>>] : V \in Menu(Reg(L, g).altw[k])}
                          : k \in DOMAIN Reg(L, g).altw} : g \in {x \in Groups(L) : ~Reg(L, x).hidden}}
-DoSetValues == \E m \in WriteMenu \cup AltMenu : SetValues(m.ws)
+\* control bit-fields at their boundary values and the size bit-field around the real size (and at both ends of its range) - alone and
+\* TOGETHER in one configuration: every case of SizeCtrlCases that exists on the layout is a successor of every state
+CtrlWrites == IF ~L.hascond THEN {} ELSE UNION {{[r |-> t[1], f |-> t[2], v |-> BitSeq(v), aw |-> 0] : v \in CtrlMenu(L, t[1], t[2])} : t \in CtrlFields(L)}
+SizeWrite(n) == [r |-> L.sizefld.r, f |-> L.sizefld.f, v |-> BitSeq(n), aw |-> 0]
+SizeAround(n) == {v \in {n - 1, n, n + 1} \cup (IF IOEnv.MENU = "small" THEN {} ELSE {0, 2 ^ Fld(L, L.sizefld.r, L.sizefld.f).width - 1}) : v >= 0 /\ v < 2 ^ Fld(L, L.sizefld.r, L.sizefld.f).width}
+SizeCtrlMenu == {[cls |-> "ctrl", ws |-> <<cw>>] : cw \in CtrlWrites}
+                \cup (IF L.sizefld.r = 0 THEN {}
+                      ELSE {[cls |-> "sizefld", ws |-> <<SizeWrite(v)>>] : v \in SizeAround(ExpSize(L, bits))}
+                           \cup UNION {{[cls |-> "sizefld", ws |-> <<cw, SizeWrite(v)>>] : v \in SizeAround(ExpSize(L, Apply(L, bits, <<cw>>)))} : cw \in CtrlWrites})
+DoSetValues == \E m \in WriteMenu \cup AltMenu \cup SizeCtrlMenu : SetValues(m.ws)
 DoExport == \E s \in {FALSE} \cup (IF L.seal # <<>> THEN {TRUE} ELSE {}) : Export(s)
 Next == NewObject \/ Template \/ GetConfig \/ LoadConfig \/ DoSetValues \/ DoExport \/ Parse
 \* bounded by an explicit step counter (TLCGet("level") in a constraint makes the state count depend on the worker schedule)
@@ -39,6 +48,13 @@ ExportedComputedHold == bin.ok => ComputedHold(L, bin.b)
 \* the size bit-field of every object holds the size of its binary
 SizeFieldAlways == SizeFieldHolds(L, bits)
 SizeFixedLemma == L.size > 0 => ExpSize(L, bits) = L.size
+\* "the exported header describes the exported block": whatever size a configuration announced and whichever registers its control
+\* bit-field selected, the size bit-field of every exported binary holds the size of the registers that exist in that binary
+ExportedSizeHolds == bin.ok => SizeFieldHolds(L, bin.b)
+\* a configuration that announces a size (right, too small, too large) builds the object that the same configuration without the
+\* announcement builds - whichever registers its control bit-field selects
+NoSize(ws) == SelectSeq(ws, LAMBDA w : ~IsSizeFld(L, w.r, w.f))
+AnnouncedSizeIgnored == [][act'.a = "SetValues" => bits' = Norm(L, Apply(L, bits, NoSize(act'.w)), Touched(act'.w))]_vars
 \* configuration of a fully loaded object -> load = identity
 ConfigRoundTripIdentity == (act.a = "LoadConfig" /\ act.fromnrm) => act.id
 \* parse -> export gives the binary that was parsed
